@@ -174,6 +174,32 @@ def empty_cycle_bookkeeping(ctx, sites=None):
         bad = [f for f in ("cycles", "cycle_lookup", "empty_cycles") if ss[0].fields[f].kind == "same"]
         ctx.decide(o, not bad, "cycles/cycle_lookup/empty_cycles all rebuilt",
                    "%s inherits %s unchanged from self" % (fn, ", ".join(bad)), loc=ss[0].instr.line(), sample=row)
+    # a vehicle that joins a cycle is entered into the lookup on every path (also when an empty cycle is reused)
+    for fn in ("add_vehicle_to_own_cycle", "add_vehicle_at_the_end"):
+        ss = [s for s in sites if s.fn == TR(fn)]
+        if not ss or "cycle_lookup" not in ss[0].fields:
+            continue
+        o = ctx.ob("R2.%s.lookup-written-on-every-path" % fn, "T2", TR(fn), "%s: every path to the result enters the vehicle into cycle_lookup" % fn)
+        s0 = ss[0]
+        fdx_ = ctx.an.fd(TR(fn))
+        ws = {w.instr.bb for w in s0.fields["cycle_lookup"].writes if w.instr is not None}
+        if not ws:
+            ctx.undecided(o, "no write to the lookup recognised")
+            continue
+        seen_, wl_ = set(), [0]
+        reached = False
+        while wl_:
+            b_ = wl_.pop()
+            if b_ in seen_ or b_ in ws:
+                continue
+            seen_.add(b_)
+            if b_ == s0.instr.bb:
+                reached = True
+                break
+            wl_.extend(fdx_.cfg.succ[b_])
+        ctx.decide(o, not reached, "%d write(s), one on every path" % len(ws),
+                   "the result of %s can be reached without a write to cycle_lookup: the vehicle sits in a cycle the lookup does not know, and the "
+                   "next update of that vehicle unwraps None" % fn, loc=s0.instr.line())
     # the empty-cycle entry removed is the one of the cycle being filled
     o, fdx = ctx.require_fn("R3.add_vehicle_at_the_end.removes-own-empty-entry", "T1", TR("add_vehicle_at_the_end"),
                             "add_vehicle_at_the_end removes exactly the entry of the target cycle from the list of empty cycles")
